@@ -147,7 +147,9 @@ def run_units(modname, units, timeout=600, procs=None, seed=0):
             results.append(run_one(*j))
     else:
         ctx = mp.get_context("fork")
-        with ctx.Pool(min(procs, len(jobs))) as pool:
+        # one fresh (forked) process per unit: state leaking between units (a module-level cache in the code under test,
+        # or in the harness) cannot make a result depend on which units a worker happened to run before
+        with ctx.Pool(min(procs, len(jobs)), maxtasksperchild=1) as pool:
             for r in pool.imap_unordered(_worker, jobs, chunksize=1):
                 results.append(r)
     results.sort(key=lambda r: r["idx"])
